@@ -108,6 +108,18 @@ pub fn run_c03(out: &mut Out, tier: &str, seed: u64) {
             dom_drivers(out, &bad, true);
         } else {
             dom_drivers(out, &doc, false);
+            // the seam between the parsers and the visitor theorem: the event stream both DOM parsers hand to their
+            // visitor is the event list of the reference tree (Model/Visitor.events, the premise of visitor_builds_the_tree)
+            for (label, copying) in [("in-place parse_dom", false), ("copying parse_dom2", true)] {
+                let r = guarded(|| sonic_rs::verif_hooks::parser::dom_events(&doc, copying));
+                let ev = match r {
+                    Ok(Ok(v)) => v.join(" "),
+                    Ok(Err(_)) => "reject".into(),
+                    Err(p) => format!("panic:{p}"),
+                };
+                out.case("domevents", &[&hex(&doc), label], &ev, doc.len() > 2);
+            }
+            out.count("event streams");
         }
     }
     // alignment sweep: the same document behind 0..130 spaces
